@@ -499,4 +499,124 @@ theorem cast_list_sum (l : List Nat) : (l.map (fun (n : Nat) => (n : Int))).sum 
   | nil => simp
   | cons a t ih => simp only [List.map_cons, List.sum_cons, ih, Nat.cast_add]
 
+/-! ### further helpers used by `Props/C19` -/
+
+theorem cast_sumR (n : Nat) (f : Nat → Nat) : ((sumR n f : Nat) : Rat) = sumR n (fun k => ((f k : Nat) : Rat)) := by
+  induction n with
+  | zero => simp
+  | succ n ih => rw [sumR_succ, sumR_succ, Nat.cast_add, ih]
+
+theorem cast_sumR_int (n : Nat) (f : Nat → Nat) : ((sumR n f : Nat) : Int) = sumR n (fun k => ((f k : Nat) : Int)) := by
+  induction n with
+  | zero => simp
+  | succ n ih => rw [sumR_succ, sumR_succ, Nat.cast_add, ih]
+
+theorem inst_le_one (m : Mask) (t i j : Nat) : inst m t i j ≤ 1 := by
+  unfold inst; split <;> omega
+
+theorem sumR_le (n : Nat) (f : Nat → Nat) (h : ∀ k, k < n → f k ≤ 1) : sumR n f ≤ n := by
+  induction n with
+  | zero => simp
+  | succ n ih =>
+    rw [sumR_succ]
+    have := ih (fun k hk => h k (by omega))
+    have := h n (by omega)
+    omega
+
+theorem total_eq_sum_countAt (m : Mask) (T I J : Nat) : total m T I J = sumIJ I J (fun i j => countAt m T i j) := by
+  unfold total countAt
+  exact sum3_time_inner T I J (inst m)
+
+theorem listSum_sumIJ_comm {β : Type} (U : List β) (I J : Nat) (g : β → Nat → Nat → Nat) :
+    (U.map (fun y => sumIJ I J (g y))).sum = sumIJ I J (fun i j => (U.map (fun y => g y i j)).sum) := by
+  unfold sumIJ
+  rw [listSum_sumR_comm]
+  apply sumR_congr; intro i _
+  rw [listSum_sumR_comm]
+
+theorem mapM_some {α β : Type} (l : List α) (g : α → β) : l.mapM (fun c => some (g c)) = some (l.map g) := by
+  induction l with
+  | nil => rfl
+  | cons a t ih => simp [List.mapM_cons, ih]
+
+theorem sum_cells {α : Type} [AddCommMonoid α] (I J : Nat) (f : Nat × Nat → α) :
+    ((cells I J).map f).sum = sumIJ I J (fun i j => f (i, j)) := by
+  unfold cells sumIJ
+  induction I with
+  | zero => simp
+  | succ I ih =>
+    rw [List.range_succ, List.flatMap_append, List.map_append, List.sum_append, ih, sumR_succ]
+    simp [sumR, Function.comp_def]
+
+theorem column_count (m : Mask) (T i j : Nat) : (column m T i j).count true = countAt m T i j := by
+  unfold column countAt
+  induction T with
+  | zero => simp
+  | succ T ih =>
+    rw [List.range_succ, List.map_append, List.count_append, ih, sumR_succ]
+    cases h : m T i j <;> simp [inst, h]
+
+theorem column_ne_nil (m : Mask) (T i j : Nat) (hT : 0 < T) : column m T i j ≠ [] := by
+  unfold column
+  intro h
+  have := congrArg List.length h
+  simp at this; omega
+
+theorem filter_ne_zero_sum (l : List Rat) : (l.filter (fun e => decide (e ≠ 0))).sum = l.sum := by
+  induction l with
+  | nil => rfl
+  | cons a t ih =>
+    by_cases h : a = 0
+    · rw [List.filter_cons_of_neg (by simp [h]), ih, List.sum_cons, h, zero_add]
+    · rw [List.filter_cons_of_pos (by simp [h]), List.sum_cons, List.sum_cons, ih]
+
+theorem sumR_mul_right (n : Nat) (f : Nat → Rat) (c : Rat) : sumR n f * c = sumR n (fun k => f k * c) := by
+  induction n with
+  | zero => simp
+  | succ n ih => rw [sumR_succ, sumR_succ, add_mul, ih]
+
+theorem sumR_nonneg (n : Nat) (f : Nat → Rat) (h : ∀ k, k < n → 0 ≤ f k) : 0 ≤ sumR n f := by
+  induction n with
+  | zero => simp
+  | succ n ih =>
+    rw [sumR_succ]
+    have := ih (fun k hk => h k (by omega))
+    have := h n (by omega)
+    linarith
+
+theorem sumR_mono (n : Nat) (f g : Nat → Rat) (h : ∀ k, k < n → f k ≤ g k) : sumR n f ≤ sumR n g := by
+  induction n with
+  | zero => simp
+  | succ n ih =>
+    rw [sumR_succ, sumR_succ]
+    have := ih (fun k hk => h k (by omega))
+    have := h n (by omega)
+    linarith
+
+theorem count_map_range (n : Nat) (f : Nat → Rat) (p : Rat → Bool) :
+    (((List.range n).map f).filter p).length = sumR n (fun k => if p (f k) then 1 else 0) := by
+  induction n with
+  | zero => simp
+  | succ n ih =>
+    rw [List.range_succ, List.map_append, List.filter_append, List.length_append, ih, sumR_succ]
+    cases h : p (f n) <;> simp [h]
+
+theorem count_flatMap_range (n : Nat) (g : Nat → List Rat) (p : Rat → Bool) :
+    (((List.range n).flatMap g).filter p).length = sumR n (fun k => ((g k).filter p).length) := by
+  induction n with
+  | zero => simp
+  | succ n ih =>
+    rw [List.range_succ, List.flatMap_append, List.filter_append, List.length_append, ih, sumR_succ]
+    simp
+
+/-- counting in the flattened array = counting over the grid -/
+theorem flat_count (x : Data) (T I J : Nat) (p : Rat → Bool) :
+    ((flat x (List.range T) I J).filter p).length = sum3 T I J (fun t i j => if p (x t i j) then 1 else 0) := by
+  unfold flat sum3 sumIJ
+  rw [count_flatMap_range]
+  apply sumR_congr; intro t _
+  rw [count_flatMap_range]
+  apply sumR_congr; intro i _
+  exact count_map_range J (fun j => x t i j) p
+
 end Lemmas.Metrics
